@@ -193,7 +193,13 @@ static void cat_cpc(std::vector<Entry>& out) {
   struct K { const char* kind; int lgk; int n; uint64_t seed; bool merged; };
   const K ks[] = { {"empty", 10, 0, DEFAULT_SEED, false}, {"sparse", 10, 20, DEFAULT_SEED, false}, {"hybrid", 10, 200, DEFAULT_SEED, false},
                    {"pinned", 10, 1500, DEFAULT_SEED, false}, {"sliding", 10, 8000, DEFAULT_SEED, false}, {"sliding_lgk5", 5, 3000, DEFAULT_SEED, false},
-                   {"seed_sparse", 8, 10, 4711, false}, {"merged_sparse", 10, 30, DEFAULT_SEED, true}, {"merged_sliding", 8, 3000, DEFAULT_SEED, true} };
+                   {"seed_sparse", 8, 10, 4711, false}, {"merged_sparse", 10, 30, DEFAULT_SEED, true}, {"merged_sliding", 8, 3000, DEFAULT_SEED, true},
+                   // window WITHOUT table (all coupons inside the 8-column window; small lgK only): with HIP the documented order is
+                   // numCoupons, wLengthInts, KxP, HIP (format PINNED_SLIDING_HIP_NOSV); n found for this item stream on the baseline tree
+                   {"notable_lgk4_n10", 4, 10, DEFAULT_SEED, false}, {"notable_lgk4_n3000", 4, 3000, DEFAULT_SEED, false}, {"notable_lgk5", 5, 18, DEFAULT_SEED, false},
+                   {"notable_lgk6", 6, 33, DEFAULT_SEED, false}, {"notable_lgk7", 7, 70, DEFAULT_SEED, false}, {"notable_lgk8", 8, 142, 4711, false},
+                   {"notable_lgk8_default", 8, 142, DEFAULT_SEED, false},
+                   {"merged_notable_lgk4", 4, 10, DEFAULT_SEED, true}, {"merged_notable_lgk6", 6, 33, DEFAULT_SEED, true}, {"merged_empty", 10, 0, DEFAULT_SEED, true} };
   for (const K& k : ks) {
     cpc_sketch s((uint8_t)k.lgk, k.seed);
     for (int i = 1; i <= k.n; i++) s.update((int64_t)IV((long long)i * 1000003));
